@@ -560,7 +560,7 @@ pub fn check_variant(
                 "type" | "rtype" => "type",
                 o => o,
             };
-            let name = x["name"].as_str().map(|s| s.to_string()).unwrap_or_else(|| format!("nm{}", x["id"]));
+            let name = x["name"].as_str().map(|s| s.to_string()).unwrap_or_else(|| crate::graphreplay::node_name(x["id"].as_u64().unwrap_or(0)));
             json!([sort, name, norm_spec_term(&x["term"])]).to_string()
         })
         .collect();
